@@ -131,6 +131,10 @@ func (m *Merger) cat() (rec *sam.Record, err error) {
 		err = nil
 	}
 	if rec == nil {
+		if err != nil {
+			// A failing input is reported, not skipped.
+			return nil, err
+		}
 		return m.Read()
 	}
 	m.reassignReference(id, rec)
